@@ -186,7 +186,14 @@ def check(ctx, rep):
         if "partial_cmp" in hand and ("cmp" in hand or ms.get("cmp", (None, False))[1]):
             key = "%s:Q3:partial_cmp-vs-cmp" % short
             po = ops["partial_cmp"]
-            delegates = any(k == "call" and nm.endswith("as std::cmp::Ord>::cmp") and re.search(r"\(_1\**, _2\**\)", txt) for k, nm, txt in po)
+            delegates = False
+            pb = hand["partial_cmp"]
+            for _bi, t in pb.calls():
+                nm = strip_generics(mir.callee_name(t) or "")
+                if nm.endswith("as std::cmp::Ord>::cmp") and len(t["args"]) == 2:
+                    a0, a1 = repr(G.describe(pb, t["args"][0])), repr(G.describe(pb, t["args"][1]))
+                    if re.fullmatch(r"_1\**", a0) and re.fullmatch(r"_2\**", a1) and short in nm:
+                        delegates = True
             if delegates:
                 rep.ok("R-EQ", key, where("partial_cmp"), "Q3: partial_cmp = Some(self.cmp(other))")
             elif "cmp" in hand:
